@@ -160,12 +160,13 @@ def equiv(a, b, base_b):
     return am == bm
 
 
-def cumulative_family(fast, slow, cum_k, cum_head, range_sessions):
+def cumulative_family(fast, slow, cum_k, cum_head, range_sessions, range_versions=None):
     """Is `slow` the shortcut's note plus ONLY what the cumulative slow path adds?  (known finding
     slow-path-cumulative-lines): every (path, session, line) of the shortcut's note is in the
     slow note; every extra one is an AI line of the range present at this commit; extra sessions
     belong to the range; common prompt records differ in the
-    recomputed counters only."""
+    recomputed counters only, or the replayed note carries the version of the record that another
+    commit of the range recorded for the same session (the slow path merges prompts picking the newest)."""
     (fa, fm), (sa, sm) = note_view(fast), note_view(slow)
     ft = {(p, h, l) for (p, h), ls in fa.items() for l in ls}
     st = {(p, h, l) for (p, h), ls in sa.items() for l in ls}
@@ -182,7 +183,7 @@ def cumulative_family(fast, slow, cum_k, cum_head, range_sessions):
         a, b = dict(fp[h]), dict(sp[h])
         for c in COUNTERS:
             a.pop(c, None); b.pop(c, None)
-        if a != b:
+        if a != b and b not in (range_versions or {}).get(h, []):
             return False, "a common prompt record differs beyond the recomputed counters"
     for key in ("schema_version", "git_ai_version"):
         if fm.get(key) != sm.get(key):
@@ -457,6 +458,16 @@ def judge(res, obs, driver_reqs):
         res.oracle_failure("twin-histories-differ", wit, "the rewritten histories differ between the twins")
         res.tag(tags); return
     n_equiv = n_cum = n_mis = 0
+    # every version of every prompt record the range's (copied) notes carry, modulo the recomputed counters
+    range_versions = {}
+    for nf_ in fast["news"]:
+        t_ = fast["notes"].get(nf_)
+        p_ = e2e.parse_note(t_) if t_ is not None else None
+        if p_ and not p_["errors"] and p_["meta"]:
+            for h_, rec_ in (p_["meta"].get("prompts") or {}).items():
+                r_ = {k_: v_ for k_, v_ in rec_.items() if k_ not in COUNTERS}
+                if r_ not in range_versions.setdefault(h_, []):
+                    range_versions[h_].append(r_)
     head_cum = set()    # head-state lines of untouched files are no longer emitted (/repo 4fd233ae, efdc0647)
     for k, (nf, ns) in enumerate(zip(fast["news"], slow["news"])):
         tf, ts = fast["notes"].get(nf), slow["notes"].get(ns)
@@ -477,7 +488,7 @@ def judge(res, obs, driver_reqs):
         cum_k = set(map(tuple, obs["ghost_cum"][k])) if k < len(obs["ghost_cum"]) else set()
         fam, why = (False, "a note is missing or unparsable")
         if pf and ps and not pf["errors"] and not ps["errors"] and pf["meta"] and ps["meta"]:
-            fam, why = cumulative_family(pf, ps, cum_k, head_cum, set(obs.get("sessions", [])))
+            fam, why = cumulative_family(pf, ps, cum_k, head_cum, set(obs.get("sessions", [])), range_versions)
         if fam:
             n_cum += 1
             res.oracle_failure("slow-path-cumulative-lines", w2,
